@@ -4,7 +4,7 @@ PROPS = {}
 
 PROPS['C07'] = dict(
   level='proof',
-  verus=[dict(unit='chanq', min_functions=10), dict(unit='ops', min_functions=2), dict(unit='splitcopy', min_functions=1), dict(unit='launchc', min_functions=1), dict(unit='parserret', min_functions=1), dict(unit='literalc', min_functions=1), dict(unit='signalvm', min_functions=1), dict(unit='basicvm', min_functions=1)],
+  verus=[dict(unit='chanq', min_functions=10), dict(unit='ops', min_functions=2), dict(unit='splitcopy', min_functions=1), dict(unit='launchc', min_functions=1), dict(unit='parserret', min_functions=1), dict(unit='literalc', min_functions=1), dict(unit='signalvm', min_functions=1), dict(unit='basicvm', min_functions=1), dict(unit='fiberstate', min_functions=4)],
   kani=[],
   not_decided=['resumption of a blocked synchronous sender is the scheduler\'s (C08), not decided here'],
 )
@@ -86,7 +86,7 @@ PROPS['C13'] = dict(
 )
 PROPS['C16'] = dict(
   level='proof',
-  verus=[dict(unit='ops', min_functions=40), dict(unit='native', min_functions=4), dict(unit='calls', min_functions=6), dict(unit='ncall', min_functions=3), dict(unit='chanq', min_functions=10), dict(unit='unwind', min_functions=6), dict(unit='hooks', min_functions=3), dict(unit='iterops', min_functions=2), dict(unit='mapops', min_functions=1), dict(unit='fiberstack', min_functions=2), dict(unit='cacheidx', min_functions=1), dict(unit='natargs', min_functions=100), dict(unit='sigkind', min_functions=1), dict(unit='splitcopy', min_functions=1), dict(unit='signalvm', min_functions=1)],
+  verus=[dict(unit='ops', min_functions=40), dict(unit='native', min_functions=4), dict(unit='calls', min_functions=6), dict(unit='ncall', min_functions=3), dict(unit='chanq', min_functions=10), dict(unit='unwind', min_functions=6), dict(unit='hooks', min_functions=3), dict(unit='iterops', min_functions=2), dict(unit='mapops', min_functions=1), dict(unit='fiberstack', min_functions=2), dict(unit='cacheidx', min_functions=1), dict(unit='natargs', min_functions=100), dict(unit='sigkind', min_functions=1), dict(unit='splitcopy', min_functions=1), dict(unit='signalvm', min_functions=1), dict(unit='fiberstate', min_functions=4)],
   kani=[dict(crate='value', harnesses=['proofs::o16_f64_cast_positive'], kind='complete', extra=['-Z', 'unstable-options', '--no-overflow-checks'], timeout=600, jobs=1, assumption_ids=['A-kani'])],
   not_decided=['the ~150 native bodies themselves (the signature gate and the fact that call_native runs a body only behind it ARE proved; that each body assumes no more than its declared signature is not), errors during handling; the front end (C15); debug-only assert_roots accounting (R3d)',
                'A-float: axiom_integral_cast_positive used by op_buffered_channel is discharged by the complete Kani harness o16_f64_cast_positive'],
